@@ -73,6 +73,9 @@ func newFile(L *LState, file *os.File, path string, flag int, perm os.FileMode, 
 	}
 	lfile := &lFile{fp: file, pp: nil, writer: nil, reader: nil, stdout: nil, closed: false}
 	ud.Value = lfile
+	if path != "" {
+		L.G.openFiles = append(L.G.openFiles, lfile)
+	}
 	if writable {
 		lfile.writer = file
 	}
@@ -257,8 +260,35 @@ errreturn:
 	return 3
 }
 
+// closeOpenFiles is lua_close's part for the io library: what a buffered writer still holds
+// is written out and the descriptors are given back (C Lua does this through the files' __gc).
+func closeOpenFiles(L *LState) {
+	for _, file := range L.G.openFiles {
+		if file.closed {
+			continue
+		}
+		file.closed = true
+		if bwriter, ok := file.writer.(*bufio.Writer); ok {
+			bwriter.Flush() // ignore errors, as for the temporary files
+		}
+		file.fp.Close()
+	}
+	L.G.openFiles = nil
+}
+
+func forgetOpenFile(L *LState, file *lFile) {
+	fs := L.G.openFiles
+	for i, f := range fs {
+		if f == file {
+			L.G.openFiles = append(fs[:i], fs[i+1:]...)
+			return
+		}
+	}
+}
+
 func fileCloseAux(L *LState, file *lFile) int {
 	file.closed = true
+	forgetOpenFile(L, file)
 	var err error
 	if file.writer != nil {
 		if bwriter, ok := file.writer.(*bufio.Writer); ok {
